@@ -90,37 +90,45 @@ func init() {
 		enc.SetEscapeHTML(false)
 
 		if *caseFile != "" {
-			var c struct {
+			type oneCase struct {
 				P   Pat      `json:"p"`
 				O   []string `json:"o"`
 				Dia string   `json:"dia"`
 				RTL bool     `json:"rtl"`
 				S   []int    `json:"s"`
 			}
+			var cs []oneCase
 			data, err := os.ReadFile(*caseFile)
 			if err == nil {
-				err = json.Unmarshal(data, &c)
+				if err = json.Unmarshal(data, &cs); err != nil {
+					var one oneCase
+					if err = json.Unmarshal(data, &one); err == nil {
+						cs = []oneCase{one}
+					}
+				}
 			}
 			if err != nil {
 				fmt.Fprintln(os.Stderr, err)
 				return 2
 			}
-			text := PrintPat(c.P, PrintOpts{X: has(c.O, "x"), RE2: c.Dia == "re2"})
-			re, err := compile(text, optBits(c.O, c.Dia, c.RTL))
-			if err != nil {
-				fmt.Fprintln(os.Stderr, "compile error:", err)
-				return 2
+			for i, c := range cs {
+				text := PrintPat(c.P, PrintOpts{X: has(c.O, "x"), RE2: c.Dia == "re2"})
+				re, err := compile(text, optBits(c.O, c.Dia, c.RTL))
+				if err != nil {
+					fmt.Fprintln(os.Stderr, "compile error:", err)
+					return 2
+				}
+				rec := FindRec{ID: i + 1, P: c.P, O: c.O, Dia: c.Dia, RTL: c.RTL, Text: text, Cases: []FindCase{}}
+				fc := FindCase{S: c.S, Res: []Res{}}
+				if fc.S == nil {
+					fc.S = []int{}
+				}
+				for st := 0; st <= len(c.S); st++ {
+					fc.Res = append(fc.Res, findRunesAt(re, intsToRunes(c.S), st))
+				}
+				rec.Cases = append(rec.Cases, fc)
+				enc.Encode(rec)
 			}
-			rec := FindRec{ID: 1, P: c.P, O: c.O, Dia: c.Dia, RTL: c.RTL, Text: text, Cases: []FindCase{}}
-			fc := FindCase{S: c.S, Res: []Res{}}
-			if fc.S == nil {
-				fc.S = []int{}
-			}
-			for st := 0; st <= len(c.S); st++ {
-				fc.Res = append(fc.Res, findRunesAt(re, intsToRunes(c.S), st))
-			}
-			rec.Cases = append(rec.Cases, fc)
-			enc.Encode(rec)
 			return 0
 		}
 
@@ -132,8 +140,9 @@ func init() {
 		alpha := inputAlphabet(cfg)
 		compileErrs, cases, skipped := 0, 0, 0
 		for id := 1; id <= *n; id++ {
-			t := g.Pattern()
 			o := randOpts(g, *optLetters, 0.2)
+			g.N = has(o, "n")
+			t := g.Pattern()
 			dia := "net"
 			if g.chance(*re2p) {
 				dia = "re2"
